@@ -56,6 +56,7 @@ def make_cs(g, role, other="0/1", nalt=None, swap_columns=False):
     return CallSet(names, [("ctg7", 100000)], [rec])
 
 
+PROJ_VARIANTS = [[2], [0], [1], [3], [4], [0, 0], [0, 2], [2, 0], [1, 1], [2, 1], [0, 1], [1, 2], [2, 2], [1, 0]]
 CODE = {"missing": 3, "multi": 4, "ploidy": 5}
 
 
@@ -238,6 +239,7 @@ def shard(S, p):
                     S.sample({"gt": s, "container": container, "role": role, "rc": r.rc, "stdout": r.out.decode(), "stderr": r.err.decode()[:300]})
 
     # ---------------- C: two selected samples - the other one complete, missing or multiallelic, before or after
+    ctx = 0
     for s in gts:
         g = parse_gt(s)
         if g == ((None,), ()):
@@ -246,16 +248,24 @@ def shard(S, p):
         for other in ("0/1", "./.", "1/2"):
             co = classify(parse_gt(other))
             for order in ("first", "second"):
-                for proj in (None, [2]):
-                    if proj is not None and (len(s) + len(other)) % 3:
-                        continue   # a third of the contexts also with projection
+                # every context without projection and (diploid strings: with EVERY; other ploidies: with one rotating) projection target out of all targets of one
+                # population of two samples (0..4 chromosomes, odd and even) and of two populations of one sample each
+                # (0..2 chromosomes per population): a genotype that is not called lowers the called total of its
+                # population only, so whether the site counts depends on the classification
+                ctx += 1
+                pv = PROJ_VARIANTS[(ctx + S.seed) % len(PROJ_VARIANTS)]
+                for proj in ([None] + list(PROJ_VARIANTS) if c[0] != "ploidy" else [None, pv]):
                     cs = make_cs(g, order, other)
                     container = cont_c[(len(s) + len(other)) % len(cont_c)]
                     data = E.encode(cs, container, None, layout="single")
-                    r = E.cli_create(data, [("sel", None), ("oth", None)], project=proj)
+                    smap2 = [("sel", None), ("oth", None)]
+                    if proj is not None and len(proj) == 2:
+                        smap2 = [("sel", "A"), ("oth", "B")] if order == "first" else [("oth", "B"), ("sel", "A")]
+                        proj = proj if order == "first" else proj[::-1]
+                    r = E.cli_create(data, smap2, project=proj, project_via="shape" if proj is None or any(m % 2 for m in proj) or ctx % 2 else "individuals")
                     S.count("C_runs")
                     S.count("C_pair_runs")
-                    tag = "C %s GTs %s (%s) with %s%s" % (container, s, order, other, " projected to 3" if proj else "")
+                    tag = "C %s GTs %s (%s) with %s%s" % (container, s, order, other, (" projected to shape %r (%s)" % ([m + 1 for m in proj], "one population" if len(proj) == 1 else "sel and oth in two populations")) if proj else "")
                     from .. import replay as R
                     wit = {"gt": s, "container": container, "level": "C", "argv": r.argv, "input_b64": E.b64(data), "run": r.brief()}
                     if c[0] == "ploidy":
@@ -285,9 +295,11 @@ def shard(S, p):
                             # projected to 2 chromosomes: only complete genotypes are called chromosomes (a multiallelic or missing
                             # genotype lowers the called total, it is never hom-ref)
                             from ..oracle.callset import reference_create
-                            exp = reference_create(cs, [("sel", None), ("oth", None)], proj)
+                            exp = reference_create(cs, smap2, proj)
                             ps = E.parse_text_spectrum(r.out) if r.rc == 0 else None
                             from fractions import Fraction
-                            if ps is None or ps[0] != [3] or any(abs(Fraction(t) - e) > Fraction(1, 10 ** 6) for t, e in zip(ps[1], exp.cells)):
-                                S.viol("C08:pair-projected:%s" % container, "[%s] rc %s stdout %r, expected %r" % (tag, r.rc, r.out[:80], [float(x) for x in exp.cells]), wit)
+                            S.count("C_pair_projected_runs")
+                            S.observe("projection_context", "%r%s" % ([m + 1 for m in proj], " counted" if exp.counted else " skipped"))
+                            if ps is None or ps[0] != exp.shape or any(abs(Fraction(t) - e) > Fraction(1, 10 ** 6) for t, e in zip(ps[1], exp.cells)):
+                                S.viol("C08:pair-projected:%s" % container, "[%s] rc %s stdout %r, expected shape %r cells %r" % (tag, r.rc, r.out[:80], exp.shape, [float(x) for x in exp.cells]), wit)
                     S.case(key="CP|%s|%s|%s|%s" % (s, other, order, proj), nontrivial=True)
